@@ -379,7 +379,16 @@ func (l *commitLog) LatestOffsetBeforeTimestamp(timestamp int64) (int64, error) 
 			return entry.Offset, nil
 		}
 
-		// Otherwise we want the previous offset.
+		// Otherwise we want the message before it. Offsets are not necessarily
+		// contiguous (compaction leaves gaps), so this is the offset of the
+		// preceding entry rather than the found offset minus one.
+		prev, err := seg.findEntryBeforeTimestamp(timestamp)
+		if err == nil {
+			return prev.Offset, nil
+		}
+		if err != ErrEntryNotFound {
+			return 0, errors.Wrap(err, "failed to find log entry for timestamp")
+		}
 		return entry.Offset - 1, nil
 	}
 
